@@ -416,6 +416,19 @@ func rulesC08(c *Ctx) {
 		}
 	}
 	c.Floor("R4", n4, 2)
+	// Loop.Errors hands out the lifecycle's error list as it is (nothing is filtered on the way out)
+	if lerrs := c.P.Func(loopPkg, "Loop", "Errors"); lerrs == nil {
+		c.Bad("R4", "fsloop.(*Loop).Errors reports the whole list", 0, "anchor not found")
+	} else {
+		okL := len(returnsOf(lerrs)) > 0
+		for _, r := range returnsOf(lerrs) {
+			call, isCall := resolve(r.Results[0]).(*ssa.Call)
+			if !isCall || call.Call.StaticCallee() == nil || !strings.HasSuffix(qualName(call.Call.StaticCallee()), mq(jobPkg, "Lifecycle", "Errors")) {
+				okL = false
+			}
+		}
+		c.Check(okL, "R4", "fsloop.(*Loop).Errors reports the whole list", lerrs.Pos(), "returns Lifecycle.Errors() itself", "Loop.Errors does not return the lifecycle's error list unchanged (errors are filtered or rebuilt) — a callback or listing error can be missing from the loop's error list")
+	}
 	// Lifecycle.Error records everything it is handed: on every path the whole argument list is appended
 	// to the error list (no error is filtered out on the way into the list)
 	if le4 := c.P.Func(jobPkg, "Lifecycle", "Error"); le4 == nil {
